@@ -115,7 +115,7 @@ func SelfValidate(key echx.KeyPair) error {
 }
 
 func Run(r *ev.Run) {
-	r.Rule("E1 exhaustive: 3 AEADs x every subset of 6 shared extensions chosen for compression x every position of the ech_outer_extensions marker x 3 positions of the inner ECH extension x 3 outer layouts (ECH first/middle/last, unrelated extensions interleaved) x padding{0,1,31,32} x session-id length{0,1,32} x key_share 36B/1220B x uncompressed shared extensions kept/omitted x session id inside the encoded inner {empty, 7 B, 32 B differing from the outer one}, plus a size family up to the 16 KiB record limit; each sealed by the reference sender and fed to the real NewConn; forwarded record compared byte for byte with the reference reconstruction. distinct = distinct outer-hello byte strings")
+	r.Rule("E1 exhaustive: 3 AEADs x every subset of 6 shared extensions chosen for compression x every position of the ech_outer_extensions marker x 3 positions of the inner ECH extension x 3 outer layouts (ECH first/middle/last, unrelated extensions interleaved) x padding{0,1,31,32} x session-id length{0,1,32} x key_share 36B/1220B x uncompressed shared extensions kept/omitted x session id inside the encoded inner {empty, 7 B, 32 B differing from the outer one}, plus a size family up to 30 kB (outer hello up to 61 kB) (hellos spanning several records, in and out) and small hellos fragmented by the client at 7 cut patterns; each sealed by the reference sender and fed to the real NewConn; forwarded record compared byte for byte with the reference reconstruction. distinct = distinct outer-hello byte strings")
 	r.Assume("tlsref/hpkeref reference sender is correct (validated on every run against crypto/tls and RFC 9180 vectors)", "outer hellos do not repeat an extension type")
 	key := echx.NewKey("c03", 7, echx.AllSuites, "public.example")
 	if err := SelfValidate(key); err != nil {
@@ -178,11 +178,24 @@ func Run(r *ev.Run) {
 		s := buildLayout(key, l)
 		s.EncInner = append(s.EncInner, tlsref.Opaque(0x7a7a, sz))
 		b := s.Build()
-		if len(b.Outer.Msg()) > 16384 {
-			continue // does not fit one record: outside this property's scope
-		}
 		l.Padding = sz // recorded in the replay as the size parameter
 		evalBuilt(r, keys, l, b, fmt.Sprintf("size%d", sz))
+	}
+	// hellos larger than one record: the outer hello arrives fragmented (RFC 8446 §5.1) and the reconstructed inner hello
+	// is itself delivered in several records; also small hellos that the client chose to fragment
+	for _, sz := range []int{17000, 24000, 30000} {
+		l := layout{AEAD: 3, Refs: []int{0, 1, 4}, MarkerAt: 2, ECHInAt: 0, SID: 32, Padding: sz}
+		s := buildLayout(key, l)
+		s.EncInner = append(s.EncInner, tlsref.Opaque(0x7a7a, sz))
+		evalBuilt(r, keys, l, s.Build(), fmt.Sprintf("size%d", sz))
+	}
+	{
+		l := layout{AEAD: 1, Refs: []int{1, 2}, MarkerAt: 1, ECHInAt: 2, SID: 32}
+		b := buildLayout(key, l).Build()
+		msg := b.Outer.Msg()
+		for _, cuts := range [][]int{{1}, {4}, {5}, {40}, {len(msg) - 1}, {3, 9}, {100, 200, 300}} {
+			evalStream(r, keys, l, b, tlsref.Fragment(0x0301, msg, cuts...), fmt.Sprintf("fragmented%v", cuts))
+		}
 	}
 	r.Set("states", len(cases))
 	r.Set("traces_validated_against_impl", len(cases))
@@ -193,10 +206,14 @@ func evalCase(r *ev.Run, key echx.KeyPair, keys []ech.Key, l layout, s echx.Spec
 }
 
 func evalBuilt(r *ev.Run, keys []ech.Key, l layout, b echx.Built, tag string) {
+	evalStream(r, keys, l, b, tlsref.FragmentMax(0x0301, b.Outer.Msg()), tag)
+}
+
+// evalStream feeds the given framing of the outer hello.
+func evalStream(r *ev.Run, keys []ech.Key, l layout, b echx.Built, stream []byte, tag string) {
 	if b.Expected == nil {
 		ev.ToolError("c03 generator produced an unresolvable reference list: %+v", l)
 	}
-	stream := b.Outer.Record()
 	res := echx.Feed(stream, keys)
 	replay := map[string]any{"layout": l, "stream": echx.Hex(stream), "encoded_inner": echx.Hex(b.EncodedInner), "keys": echx.KeysDoc(keys)}
 	r.Add("transitions", 1)
@@ -208,14 +225,18 @@ func evalBuilt(r *ev.Run, keys []ech.Key, l layout, b echx.Built, tag string) {
 	case !res.Accepted:
 		r.Violation("valid-hello-not-accepted"+tag, "NewConn did not accept a valid ECH hello", replay)
 	default:
-		want := tlsref.Record(22, 0x0301, b.Expected.Msg())
+		// the backend must receive exactly the reconstructed message, in well-formed handshake records of at most 2^14 bytes, and nothing else
+		wantMsg := b.Expected.Msg()
+		got, rest := tlsref.HandshakeBytes(res.Forwarded, len(wantMsg))
 		recs, _ := tlsref.SplitRecords(res.Forwarded)
-		if len(recs) != 1 || !echx.SameRecordModuloVersion(recs[0], want) {
-			var got []byte
-			if len(recs) > 0 {
-				got = recs[0]
+		wellFramed := len(rest) == 0
+		for _, rc := range recs {
+			if rc[0] != 22 || len(rc)-5 > 16384 || len(rc) == 5 {
+				wellFramed = false
 			}
-			r.Violation("reconstruction-differs"+tag+diffKind(got, want), fmt.Sprintf("forwarded inner hello differs from the reference reconstruction:\n got  %x\n want %x", got, want), replay)
+		}
+		if !bytes.Equal(got, wantMsg) || !wellFramed || len(wantMsg) <= 16384 && len(recs) != 1 {
+			r.Violation("reconstruction-differs"+tag+diffKind(append([]byte{0, 0, 0, 0, 0}, got...), append([]byte{0, 0, 0, 0, 0}, wantMsg...)), fmt.Sprintf("forwarded inner hello differs from the reference reconstruction (well framed: %v, %d records):\n got  %x\n want %x", wellFramed, len(recs), got[:min(len(got), 400)], wantMsg[:min(len(wantMsg), 400)]), replay)
 		}
 		if res.ServerName != innerName || !slices.Equal(res.ALPN, []string{"h2", "http/1.1"}) {
 			r.Violation("reported-name-alpn"+tag, fmt.Sprintf("ServerName=%q ALPN=%v, want %q [h2 http/1.1]", res.ServerName, res.ALPN, innerName), replay)
